@@ -350,6 +350,9 @@ pub fn group(cfg: &WxmlCfg) -> BoxedStrategy<Group> {
                 add_slot_refs(&mut body, &mut rng);
                 add_slot_refs(&mut inc_a, &mut rng);
                 add_slot_refs(&mut inc_b, &mut rng);
+                // (the added reads may stand next to an existing text node: one text node in the printed source)
+                inc_a = normalise_nodes(inc_a);
+                inc_b = normalise_nodes(inc_b);
             }
             let dedup_named = |v: Vec<(String, Vec<Node>)>| {
                 let mut seen = std::collections::HashSet::new();
